@@ -61,6 +61,8 @@ Apply(s, e) ==
          [s EXCEPT !.op[e.p] = Idle,
                    !.dirty = IF ~e.ok /\ o.kind \in {"snap", "del", "clean"} THEN @ \cup {f}
                              ELSE IF o.kind = "clean" THEN @ \ {f} ELSE @]
+    [] e.a = "tamper" -> IF e.gone THEN [s EXCEPT !.snaps = @ \ {e.s}] ELSE s      \* C04: only the removal of a snapshot object changes what is listed
+    [] e.a = "repair" -> IF e.gone THEN [s EXCEPT !.snaps = @ \cup {e.s}] ELSE s
     [] e.a = "crash" -> [s EXCEPT !.op[e.p] = Idle, !.dirty = @ \cup {FamOfU(s.op[e.p].u)}]
     [] OTHER -> s
 
